@@ -4,6 +4,8 @@ import Norad.Model.RoundTrip
 -/
 namespace RT
 
+variable {P : Parts}
+
 /-! ## recursive key sorting does not change a plist value as a map -/
 
 theorem lookup_insertKV (k : String) (a : String × PV) (l : Dict) :
@@ -102,12 +104,12 @@ theorem lfNorm_crlfToLf (s : List Char) : lfNorm (crlfToLf s) = lfNorm s := by
 
 /-! ## layers: a default layer that is already first stays first, the others keep their order -/
 
-theorem defaultFirst_id (l : Layer) (r : List Layer) (h : l.dir = glyphsDir) :
+theorem defaultFirst_id (l : (Layer P)) (r : List (Layer P)) (h : l.dir = glyphsDir) :
     defaultFirst (l :: r) = .ok (l :: r) := by
   simp [defaultFirst, findDefault, h]
 
 /-- in general the default layer is moved to the front and the relative order of the others is kept -/
-theorem findDefault_spec (ls : List Layer) (i : Nat) (h : findDefault ls = some i) :
+theorem findDefault_spec (ls : List (Layer P)) (i : Nat) (h : findDefault ls = some i) :
     ∃ d, ls[i]? = some d ∧ d.dir = glyphsDir ∧ ∀ j, j < i → ∀ x, ls[j]? = some x → x.dir ≠ glyphsDir := by
   induction ls generalizing i with
   | nil => simp [findDefault] at h
